@@ -206,6 +206,12 @@ func latVariants() map[string]latVariant {
 		{"MCSearch5", func(l *latticeSolid3, _ *rand.Rand) (*model3d.Mesh, int, *model3d.CoordMap[model3d.Coord3D]) {
 			return model3d.MarchingCubesSearch(l, 1, 5), 64, nil
 		}, nil},
+		{"MCSearch5tiny", func(l *latticeSolid3, _ *rand.Rand) (*model3d.Mesh, int, *model3d.CoordMap[model3d.Coord3D]) {
+			// the same problem at scale 2^-24: the answer must scale with it
+			k := math.Ldexp(1, -24)
+			m := model3d.MarchingCubesSearch(scaledLattice{l, k}, k, 5)
+			return m.Scale(1 / k), 64, nil
+		}, nil},
 		{"MCSearchFilter3", func(l *latticeSolid3, _ *rand.Rand) (*model3d.Mesh, int, *model3d.CoordMap[model3d.Coord3D]) {
 			return model3d.MarchingCubesSearchFilter(l, exactFilter3(l, nil), 1, 3), 16, nil
 		}, nil},
